@@ -246,7 +246,24 @@ func (c *corpus) validate(ends func(string) []int, ok func(string) bool) (droppe
 		if d.close == "" {
 			probe = c.prologue + d.head + strings.Repeat(d.open+d.sep, 3) + d.core
 		}
-		if ok(probe + d.tail + c.sep + c.epilogue) {
+		// the run of openers must be observable: a reported separator between the tokens,
+		// otherwise listener events say nothing about how far the parser got and the
+		// token-count oracle would mistake a long silent run for an overrun
+		observable := false
+		if c.events != nil && d.sep != "" {
+			coreAt := len(c.prologue) + len(d.head) + 3*len(d.open+d.sep)
+			seen := 0
+			for _, e := range c.events(probe + d.tail + c.sep + c.epilogue) {
+				if e.kind == 'E' && e.end <= coreAt && e.off >= len(c.prologue) {
+					seen++
+				}
+			}
+			observable = seen >= 2
+		}
+		if !observable && d.close == "" && d.sep == "" {
+			observable = true // a flat run of operands (a + b + b ...): every operand is reduced and reported
+		}
+		if ok(probe+d.tail+c.sep+c.epilogue) && observable {
 			deep = append(deep, d)
 		} else {
 			dropped = append(dropped, "deep:"+d.open+d.core+d.close)
@@ -749,18 +766,18 @@ func initTargets() {
 
 // registerGenerated plugs a freshly generated parser (see /verif/driver/genbatch.go) into
 // the target list. Its corpus is validated with the parser itself, like the shipped ones.
-func registerGenerated(name string, parse func(ctx context.Context, in string, ev func(t, flags, off, end int), eh func(line, off, end int) bool) error,
-	newSession func() func(ctx context.Context, in string, ev func(t, flags, off, end int), eh func(line, off, end int) bool) error,
+func registerGenerated(name string, parse func(ctx context.Context, in string, ev func(t, flags, off, end int), eh func(line, off, end int) bool) (string, error),
+	newSession func() func(ctx context.Context, in string, ev func(t, flags, off, end int), eh func(line, off, end int) bool) (string, error),
 	ends func(string) []int, c *corpus, deep [][6]string, hasEH, lookaheads bool) {
 	sess := func() func(ctx context.Context, in string, rec *recorder) (string, error) {
 		f := newSession()
-		return func(ctx context.Context, in string, rec *recorder) (string, error) { return "", f(ctx, in, rec.Event, rec.ErrH) }
+		return func(ctx context.Context, in string, rec *recorder) (string, error) { return f(ctx, in, rec.Event, rec.ErrH) }
 	}
 	for _, d := range deep {
 		c.deep = append(c.deep, deepShape{d[0], d[1], d[2], d[3], d[4], d[5]})
 	}
 	p := func(ctx context.Context, in string, rec *recorder) (string, error) {
-		return "", parse(ctx, in, rec.Event, rec.ErrH)
+		return parse(ctx, in, rec.Event, rec.ErrH)
 	}
 	c.events = eventsWith(p)
 	droppedItems[name] = c.validate(ends, okWith(p))
